@@ -60,14 +60,25 @@ def sample_lists(rng, n, maxlen=9, minlen=1):
     return out
 
 
+ALL_VARIANTS = [v for n in VARIANTS for v in VARIANTS[n]]
+DEFAULT_VARIANTS = [VARIANTS[n][0] for n in VARIANTS]
+
+
+def build(lo, hi, variants=None):
+    """constants selecting the criterion-by-criterion build mode"""
+    return dict(CritMode='build', CritVariants=variants or ALL_VARIANTS, MinCrits=lo, MaxCrits=hi, CritLists=[()])
+
+
 def fam(**over):
     f = dict(NA=3, NS=2, NP=2, NL=2, MaxLen=2, TieMode='all', AllowEmpty=True,
              PQ=PQ_SMALL, LQ=LQ_SMALL, LecMapMode='mono', Sided={'one', 'two'}, OrderMode='all',
              PCs={False, True}, Stabs={False}, BFs={False}, CritLists=[()],
+             CritMode='set', CritVariants=[], MinCrits=0, MaxCrits=0,
              Press={'id'}, Styles={'plain'}, InfoBlocks={False},
-             CheckIP=False, CheckText=False, ReportCap=1, Detail=True)
+             CheckIP=False, CheckText=False, ReportCap=1, Detail=True, ExportMode='run')
     f.update(over)
     f['CritLists'] = tlc.tla_set(f['CritLists'])
+    f['CritVariants'] = tlc.tla_set(f['CritVariants'])
     f['PQ'] = tlc.tla_set(f['PQ'])
     f['LQ'] = tlc.tla_set(f['LQ'])
     return f
@@ -85,7 +96,8 @@ def run_spec(label, consts, simulate=None, invariants=None, depth=40):
         inv = IP_INVARIANTS + inv
     if consts.get('CheckText'):
         inv = TEXT_INVARIANTS + inv
-    return dict(label=label, consts=consts, simulate=(simulate, depth) if simulate else None, invariants=inv)
+    return dict(label=label, consts=consts, simulate=(simulate, depth) if simulate else None, invariants=inv,
+                constraint='StopAfterReady' if consts.get('ExportMode') == 'checker' else None)
 
 
 # ---------------------------------------------------------------------------
